@@ -1587,7 +1587,8 @@ def check(run):
     thorough = run.tier == 'thorough'
     common.prove(run, 'C18', ['model/C18Bookmarks.vo', 'model/C18Outline.vo', 'model/C18Links.vo', 'model/C18Date.vo',
                               'model/C18Aabb.vo', 'model/C18Href.vo', 'model/C18Names.vo', 'model/C18PageMatrix.vo',
-                              'proofs/C18_gen_aabb.vo', 'proofs/C18_gen_page_matrix.vo'])
+                              'proofs/C18_gen_aabb.vo', 'proofs/C18_gen_page_matrix.vo',
+                              'proofs/C18_gen_bookmarks.vo', 'proofs/C18_gen_outline_count.vo'])
     run.trusted += ['Coq 8.16.1 kernel (coqc); vm_compute for the cases.v evaluation',
                     'hand models coq/model/C18*.v, tied to /repo by the direct-call correspondence streams; '
                     'C18Aabb (rectangle_aabb, Matrix.transform_point / __matmul__ / constructor) and C18PageMatrix (the '
@@ -1596,7 +1597,12 @@ def check(run):
                     'coq/base/Py.v; methods are resolved by name: the receiver of .transform_point / @ is trusted to be '
                     'a Matrix; the rest of the page loop of generate_pdf, which hands matrix / left / top / right / '
                     'bottom to add_links and to the page dictionary, is outside the translated slices - the '
-                    'translator only checks that it does not rebind them)',
+                    'translator only checks that it does not rebind them); the level stack of make_page_bookmark_tree '
+                    '(head of the loop body through `assert depth >= 1`; skipped_levels.pop() hoisted by the printer, '
+                    'see hoist_pops) and the Count statements of add_outlines are regenerated too: the rest of these '
+                    'loops (children lists aliased inside last_by_depth; the recursion, the pydyf objects and the '
+                    'Prev / Next / First / Last / Parent entries) is outside the value domain of Py.v and stays tied by '
+                    'the correspondence streams only - the translator checks that it still consumes depth / count)',
                     'harness stubs (SimpleNamespace pages/boxes, pydyf.PDF), its reader of pydyf objects/strings, '
                     'and the Python judge of the render monitor (urllib.parse.urljoin for relative URLs)']
     run.assumptions += ['the regular expression W3C_DATE_RE is glue: exercised by the dates stream, not modelled',
